@@ -579,8 +579,8 @@ class E3:
             elif name in ("reserve", "try_reserve"):
                 add = arg_vals[1][1] if len(arg_vals) > 1 and is_int(arg_vals[1]) else None
                 if add is not None:
-                    self.check("C13", key + ":request", st, [ge(req, cf["N"] + add)] + ([gt(req, cap)] if cap is not None else []),
-                               "`%s` reallocates only when capacity < len + additional and requests at least len + additional" % name, info["loc"])
+                    self.check("C13", key + ":request", st, [ge(req, cf["N"] + add)],
+                               "when `%s` reallocates it requests at least len + additional" % name, info["loc"])
             elif name not in ("clear",):
                 self.rec("C13", key + ":unexpected-reallocation", False,
                          "`%s` allocates a new table (only reserve, try_reserve, shrink_to, shrink_to_fit and growing insertions may)" % name, info["loc"])
